@@ -17,6 +17,7 @@ pub mod c17;
 pub mod c18;
 pub mod c20;
 pub mod kb;
+pub mod miri;
 pub mod smoke;
 pub mod wire;
 
